@@ -22,7 +22,7 @@ PROP = dict(
             dict(module="LogSink", cfg=dict(thorough="LogSinkLive_thorough.cfg"), workers=4, timeout=300),
             dict(module="LogRoller", cfg=dict(thorough="LogRoller_thorough.cfg"), emit=True, workers=8, timeout=300),
             dict(module="LogSinkHist", cfg="LogSinkHist.cfg", emit=True, workers=1,
-                 simulate=dict(quick=dict(num=6, depth=120), thorough=dict(num=60, depth=120)), timeout=300),
+                 simulate=dict(quick=dict(num=8, depth=120), thorough=dict(num=60, depth=120)), timeout=300),
         ],
         go=[dict(pkg="c20", test="TestC20", timeout=dict(quick=600, thorough=3000)),
             dict(pkg="cx20logsink", test="TestCx20LogSink", timeout=dict(quick=300, thorough=900))],
